@@ -533,13 +533,23 @@ func c18SetMachine(c *Ctx, kind string, maxDepth int) *Machine[*setInst] {
 	// padding of their own), the plain value comes last
 	nestedFirst := strings.HasSuffix(kind, " nested-first")
 	kind = strings.TrimSuffix(kind, " nested-first")
+	// "<KIND> empty-element": one of the values is the empty string (it renders as nothing, or as the bare
+	// encapsulation pair once one is configured)
+	emptyElement := strings.HasSuffix(kind, " empty-element")
+	kind = strings.TrimSuffix(kind, " empty-element")
 	content := func() []any {
+		if emptyElement {
+			return []any{"a", "", "b"}
+		}
 		if nestedFirst {
 			return []any{stackage.Cond("k", stackage.Eq, "v"), stackage.Or().Push("x", "y"), "b"}
 		}
 		return []any{"a", "b"}
 	}
 	kids := []gnode{{T: "leaf", V: "a"}, {T: "leaf", V: "b"}}
+	if emptyElement {
+		kids = []gnode{{T: "leaf", V: "a"}, {T: "leaf", V: ""}, {T: "leaf", V: "b"}}
+	}
 	if nestedFirst {
 		kids = []gnode{{T: "cond", Kw: "k", Op: 1, Kids: []gnode{{T: "leaf", V: "v"}}}, {T: "stack", Kind: "OR", Kids: []gnode{{T: "leaf", V: "x"}, {T: "leaf", V: "y"}}}, {T: "leaf", V: "b"}}
 	}
@@ -814,6 +824,45 @@ var lvlArgs = []struct {
 	{"UserLogLevel10", stackage.UserLogLevel10, 32768}, {`"user2"`, "user2", 128}, {"LogLevel(6)", stackage.LogLevel(6), 6},
 }
 
+// c18Defaults: the package-level default log levels take the same names, constants and raw integers as the
+// per-instance setters (as a literal value: what is given is what is in force), report them through their
+// getters. Sequential: the defaults are package state.
+func c18Defaults(c *Ctx) int {
+	type arg struct {
+		n string
+		v any
+		m uint16
+	}
+	var args []arg
+	for _, a := range lvlArgs {
+		args = append(args, arg{a.n, a.v, a.m})
+	}
+	args = append(args, arg{"1", 1, 1}, arg{"32768", 32768, 32768}, arg{"65534", 65534, 65534}, arg{"65536 (out of range: none)", 65536, 0}, arg{"-1 (out of range: none)", -1, 0},
+		arg{`"bogus" (no such level: none)`, "bogus", 0}, arg{"nil (none)", nil, 0}, arg{"LogLevel(65535)", stackage.LogLevel(65535), 65535})
+	defer stackage.SetDefaultStackLogLevel(stackage.NoLogLevels)
+	defer stackage.SetDefaultConditionLogLevel(stackage.NoLogLevels)
+	n := 0
+	for _, prev := range []any{stackage.NoLogLevels, stackage.LogLevel2} {
+		for _, a := range args {
+			n++
+			c.Transitions.Add(1)
+			stackage.SetDefaultStackLogLevel(prev)
+			stackage.SetDefaultConditionLogLevel(prev)
+			stackage.SetDefaultStackLogLevel(a.v)
+			stackage.SetDefaultConditionLogLevel(a.v)
+			if got := stackage.DefaultStackLogLevel(); got != int(a.m) {
+				c.Violation("default-level:Stack", fmt.Sprintf("SetDefaultStackLogLevel(%s) after %v: DefaultStackLogLevel()=%d want %d", a.n, prev, got, a.m), nil, 0)
+			}
+			if got := stackage.DefaultConditionLogLevel(); got != int(a.m) {
+				c.Violation("default-level:Condition", fmt.Sprintf("SetDefaultConditionLogLevel(%s) after %v: DefaultConditionLogLevel()=%d want %d", a.n, prev, got, a.m), nil, 0)
+			}
+			// (what instances made afterwards start with is not part of the statement: Conditions always start
+			// with no level at all, whatever SetDefaultConditionLogLevel was given - DESIGN.md section 6)
+		}
+	}
+	return n
+}
+
 var c18Logger = log.New(io.Discard, "c18 ", 0)
 
 var lvlNames = []string{"CALLS", "POLICY", "STATE", "DEBUG", "ERROR", "TRACE", "USER1", "USER2", "USER3", "USER4", "USER5", "USER6", "USER7", "USER8", "USER9", "USER10"}
@@ -1009,7 +1058,7 @@ func init() {
 				om = append(om, m)
 			}
 		}
-		sm = append(sm, c18SetMachine(c, "NOT mutex", 0), c18SetMachine(c, "AND validity-rejecting", 0), c18SetMachine(c, "LIST validity-rejecting", 0), c18SetMachine(c, "AND nested-first", 0), c18SetMachine(c, "NOT nested-first", 0))
+		sm = append(sm, c18SetMachine(c, "NOT mutex", 0), c18SetMachine(c, "AND validity-rejecting", 0), c18SetMachine(c, "LIST validity-rejecting", 0), c18SetMachine(c, "AND nested-first", 0), c18SetMachine(c, "NOT nested-first", 0), c18SetMachine(c, "LIST empty-element", 0), c18SetMachine(c, "OR empty-element", 0))
 		pre := []int{4, 5, 8}
 		if tier == "thorough" {
 			pre = []int{3, 4, 5, 7, 8, 9, 15, 16, 17, 33}
@@ -1051,6 +1100,7 @@ func init() {
 			c.Exhaustive = c.Exhaustive && st.Complete
 			c.Sample(map[string]any{"machine": m.Name, "states": st.States, "transitions": st.Transitions})
 		}
+		c.Bound["package_default_level_settings"] = c18Defaults(c)
 		cmAll := []*Machine[*csetInst]{c18CondSetMachine(c), c18CondSetMachine(c, "empty-list")}
 		cm := cmAll[0]
 		cmAll[1].MaxDepth = 3
